@@ -20,6 +20,7 @@ import (
 //	e  instant, returns *jrpc2.Error{Code: 7}
 //	u  instant, returns a value that cannot be marshalled
 //	r  instant, returns *jrpc2.Error{Code: InvalidRequest}; p: code ParseError
+//	c  instant, returns context.Canceled; d: *jrpc2.Error with code DeadlineExceeded
 //
 // Every invocation logs h.enter / h.exit with the logical clock, counts as
 // running in between, and returns the unique token "<tag>/<seq>".
@@ -153,6 +154,10 @@ func (h *Handlers) wrap(kind byte) jrpc2.Handler {
 			return nil, jrpc2.Errorf(jrpc2.ParseError, "P:%s", tag)
 		case 'u':
 			return UnmarshalableResult{}, nil
+		case 'c': // the bare context sentinel (a handler giving up because some context of its own ended)
+			return nil, context.Canceled
+		case 'd': // an *Error carrying the DeadlineExceeded code
+			return nil, jrpc2.Errorf(jrpc2.DeadlineExceeded, "D:%s", tag)
 		case 'b': // an error whose Data is not valid JSON: it cannot be encoded as it is
 			return nil, &jrpc2.Error{Code: 9, Message: "B:" + tag, Data: json.RawMessage("{bad")}
 		case 'x': // a pre-encoded result, pretty-printed over several lines
@@ -171,7 +176,7 @@ func (h *Handlers) Assign(ctx context.Context, method string) jrpc2.Handler {
 		return f
 	}
 	switch method {
-	case "g", "G", "i", "e", "u", "r", "p", "x", "b":
+	case "g", "G", "i", "e", "u", "r", "p", "x", "b", "c", "d":
 		return h.wrap(method[0])
 	}
 	return nil
@@ -179,7 +184,7 @@ func (h *Handlers) Assign(ctx context.Context, method string) jrpc2.Handler {
 
 // Names implements jrpc2.Namer.
 func (h *Handlers) Names() []string {
-	names := []string{"G", "b", "e", "g", "i", "p", "r", "u", "x"}
+	names := []string{"G", "b", "c", "d", "e", "g", "i", "p", "r", "u", "x"}
 	for k := range h.Extra {
 		names = append(names, k)
 	}
